@@ -103,6 +103,18 @@ func ZZVerifC15Ranking() {
 	case 2:
 		ma["memory_layer"] = "procedural"
 	}
+	// the counter may have been stored by an embedding application with any Go number type
+	prior := 0.0
+	if how == 3 {
+		switch rt.IntRange("countType", 0, 3) {
+		case 1:
+			ma["_access_count"], prior = 5.0, 5
+		case 2:
+			ma["_access_count"], prior = 5, 5
+		case 3:
+			ma["_access_count"], prior = int64(5), 5
+		}
+	}
 	first, second := "a", "b"
 	if rt.IntRange("order", 0, 1) == 1 {
 		first, second = "b", "a"
@@ -119,8 +131,8 @@ func ZZVerifC15Ranking() {
 		rt.Assert(e.VReinforce("i0", []string{"a"}) == nil, "VReinforce")
 		d, err := e.VGet("i0", "a")
 		rt.Assert(err == nil, "VGet after reinforce")
-		c, _ := d.Metadata["_access_count"].(float64)
-		rt.Assert(c == 1, "reinforcing increases the access count by exactly one")
+		c := toFloat64(d.Metadata["_access_count"])
+		rt.Assert(c == prior+1, "reinforcing increases the access count by exactly one, whatever number type stored it")
 		la, _ := d.Metadata["_last_accessed"].(float64)
 		rt.Assert(la >= 1700000000, "reinforcing moves the reference time to now")
 	}
@@ -129,5 +141,29 @@ func ZZVerifC15Ranking() {
 	if err == nil && len(res) == 2 {
 		rt.Assert(res[0] == "a", "the pinned / no-decay-layer / reinforced memory ranks before its decayed twin")
 	}
+	rt.Reach("end")
+}
+
+// ZZVerifC15CountTypes: the access count drives the Ebbinghaus model whatever Go number type stored it (an
+// embedding application may store int or int64, JSON and the journal store float64): three memories at the
+// same distance, created at the same time, with the count 5 stored as float64, int and int64 must get the
+// same decay factor, and it must differ from (decay slower than) a never-accessed twin's.
+func ZZVerifC15CountTypes() {
+	e := zzC15Open("ebbinghaus")
+	old := float64(1700000000 - 150)
+	rt.Assert(e.VAdd("i0", "f", []float32{1}, map[string]any{"_created_at": old, "_access_count": 5.0}) == nil, "VAdd f")
+	rt.Assert(e.VAdd("i0", "i", []float32{1}, map[string]any{"_created_at": old, "_access_count": 5}) == nil, "VAdd i")
+	rt.Assert(e.VAdd("i0", "l", []float32{1}, map[string]any{"_created_at": old, "_access_count": int64(5)}) == nil, "VAdd l")
+	rt.Assert(e.VAdd("i0", "z", []float32{1}, map[string]any{"_created_at": old}) == nil, "VAdd z")
+	sc, err := e.VSearchWithScores("i0", []float32{0}, 4)
+	rt.Assert(err == nil && len(sc) == 4, "all four memories are found")
+	f := map[string]float64{}
+	for _, r := range sc {
+		if r.Breakdown != nil {
+			f[r.ID] = r.Breakdown.DecayFactor
+		}
+	}
+	rt.Assert(f["i"] == f["f"] && f["l"] == f["f"], "the Ebbinghaus decay uses the access count whatever number type stored it")
+	rt.Assert(f["f"] > f["z"], "Ebbinghaus decays slower the more often the memory was accessed")
 	rt.Reach("end")
 }
